@@ -1022,9 +1022,22 @@ def to_impl_value(v):
     return Struct(attributes={k: to_impl_value(x) for k, x in v.items()})
 
 
-def drive_accepted(text, prog, seed_str, max_calls=300):
+def _fixed_value(v):
+    """JSON-able value of a witness / generated case -> what an execution engine hands over"""
+    from pfdl_scheduler.model.struct import Struct
+    from pfdl_scheduler.model.array import Array
+    if isinstance(v, dict):
+        return Struct(attributes={k: _fixed_value(x) for k, x in v.items()})
+    if isinstance(v, list):
+        return Array(values=[_fixed_value(x) for x in v])
+    return v
+
+
+def drive_accepted(text, prog, seed_str, max_calls=300, values=None):
     """construct, start and drive to the end with well-typed values and a random completion
-    order.  -> dict(exc, where, completed, calls)"""
+    order; at most max_calls completions (an order that is not finished by then "does not
+    complete").  values: optional {task name: {variable: value}} that overrides the random
+    well-typed values.  -> dict(exc, where, completed, calls)"""
     import contextlib
     import io
     from pfdl_scheduler.scheduler import Scheduler
@@ -1038,6 +1051,8 @@ def drive_accepted(text, prog, seed_str, max_calls=300):
 
     def var(name, ctx):
         state["queries"] += 1
+        if values and name in values.get(ctx.task.name, {}):
+            return _fixed_value(values[ctx.task.name][name])
         t = vt.get(ctx.task.name, {}).get(name)
         final = state["queries"] > 40
         if t is None:
@@ -1090,12 +1105,105 @@ def drive_accepted(text, prog, seed_str, max_calls=300):
 
 
 def _drive_one(args):
-    text, prog, seed_str = args
+    text, prog, seed_str, values, max_calls = args
     try:
-        return drive_accepted(text, prog, seed_str)
+        return drive_accepted(text, prog, seed_str, max_calls=max_calls, values=values)
     except Exception as e:  # noqa: BLE001
         return {"exc": "harness:" + type(e).__name__, "where": "harness", "completed": False, "calls": 0,
                 "tb": traceback.format_exc(limit=6)}
+
+
+def has_division_in_guard(prog):
+    """shape predicate of finding D18: some While guard or Condition contains a division"""
+    def has_div(e):
+        k = e[0]
+        if k == "bin":
+            return e[1] == "/" or has_div(e[2]) or has_div(e[3])
+        if k in ("not", "paren"):
+            return has_div(e[1])
+        return False
+
+    def walk(ss):
+        for s in ss:
+            if s[0] == "while" and (has_div(s[1]) or walk(s[2])):
+                return True
+            if s[0] == "count" and walk(s[4]):
+                return True
+            if s[0] == "cond" and (has_div(s[1]) or walk(s[2]) or walk(s[3])):
+                return True
+        return False
+    return any(walk(t["body"]) for t in prog["tasks"])
+
+
+DATA_STRUCT = {"name": "Data", "attrs": [("count", ("plain", "number")), ("ratio", ("plain", "number")),
+                                         ("flag", ("plain", "boolean"))]}
+
+
+def div_zero_case(seed_str):
+    """an accepted program whose guard divides by a value that is 0 at run time (finding D18):
+    variable divisor with the supplied value 0, or the literal divisor 0; Condition or While;
+    in productionTask or in a called task"""
+    from fractions import Fraction
+    rng = random.Random(seed_str)
+    P = faults.P
+    divisor = rng.choice([P("d", "count"), P("d", "count"), ("num", Fraction(0)),
+                          ("paren", ("bin", "-", P("d", "count"), P("d", "count")))])
+    guard = ("bin", rng.choice(["<", ">=", "=="]), ("bin", "/", P("d", "ratio"), divisor), ("num", Fraction(1)))
+    if rng.random() < 0.3:
+        guard = ("bin", "And", P("d", "flag"), ("paren", guard))
+    decl = ("service", "S1", [], [("d", ("plain", "Data"))])
+    if rng.random() < 0.6:
+        st = ("cond", guard, [("service", "S2", [], [])], [("service", "S3", [], [])])
+    else:
+        st = ("while", guard, [("service", "S2", [], [])])
+    body = [decl, st]
+    tname = "productionTask"
+    tasks = [{"name": "productionTask", "ins": [], "body": body, "outs": []}]
+    if rng.random() < 0.4:
+        tname = "checkTask"
+        tasks = [{"name": "productionTask", "ins": [], "body": [("call", "checkTask", [], [])], "outs": []},
+                 {"name": "checkTask", "ins": [], "body": body, "outs": []}]
+    prog = {"structs": [dict(DATA_STRUCT)], "tasks": tasks}
+    lm = {}
+    text = gen_check.render(prog, None, lm)
+    return {"prog": prog, "text": text, "lm": lm,
+            "meta": {"family": "div-zero", "seed": seed_str,
+                     "values": {tname: {"d": {"count": 0, "ratio": 1.5, "flag": True}}}}}
+
+
+def same_variable_loops_cases():
+    """deterministic: counting loops nested in one task that use the SAME counting variable"""
+    P = faults.P
+    q = ("service", "Sq", [], [("q", faults.FQ)])
+    call = ("call",) + faults.GOOD_CALL
+    svc = ("service", "Sin", [P("q", "items", "@i")], [])
+    shapes = {
+        "seq_seq": [("count", False, "i", ("int", 2), [("count", False, "i", ("int", 3), [svc])])],
+        "seq_seq_same_header": [("count", False, "i", ("int", 2), [("count", False, "i", ("int", 2), [svc]),
+                                                                     ("service", "Safter", [P("q", "items", "@i")], [])])],
+        "seq_par": [("count", False, "i", ("int", 2), [("count", True, "i", ("int", 2), [call])])],
+        "seq_par_then_service": [("count", False, "i", ("int", 3), [("count", True, "i", ("int", 2), [call]),
+                                                                      ("service", "Safter", [], [])])],
+        "three": [("count", False, "i", ("int", 2), [("count", False, "i", ("int", 2), [("count", False, "i", ("int", 2), [svc])])])],
+        "three_mixed": [("count", False, "i", ("int", 2),
+                         [("count", False, "i", ("int", 2), [("count", True, "i", ("int", 2), [call]), svc])])],
+        "seq_seq_limit_path": [("count", False, "i", ("int", 2), [("count", False, "i", ("path", "q", [("f", "count")]), [svc])])],
+    }
+    out = []
+    for name, stmts in shapes.items():
+        for in_called in (False, True):
+            body = [q] + gen_check.clone(stmts)
+            tasks = [{"name": "productionTask", "ins": [], "body": body, "outs": []}]
+            if in_called:
+                tasks = [{"name": "productionTask", "ins": [], "body": [("call", "tloops", [], [])], "outs": []},
+                         {"name": "tloops", "ins": [], "body": body, "outs": []}]
+            prog = {"structs": [dict(x) for x in faults.SUPPORT_STRUCTS], "tasks": tasks + [gen_check.clone(faults.SUPPORT_TASK)]}
+            lm = {}
+            text = gen_check.render(prog, None, lm)
+            out.append({"prog": prog, "text": text, "lm": lm,
+                        "meta": {"family": "nesting", "container": "same-variable-loops", "inner": name,
+                                 "max_calls": 200, "seed": "same-variable/%s/%d" % (name, in_called)}})
+    return out
 
 
 def near_valid_case(seed_str):
@@ -1260,6 +1368,8 @@ def slice_C09(pid, cfg, tier, seed, workdir, rep, stats, findings):
     for rnd in range(max(1, n // 240)):
         cases += [nesting_case(co, inn, "%d/%s/nest/%s/%s/%d" % (seed, pid, co, inn, rnd))
                   for co in CONTAINERS for inn in INNER]
+    cases += same_variable_loops_cases()
+    cases += [div_zero_case("%d/%s/div0/%d" % (seed, pid, i)) for i in range(max(6, n // 40))]
     cases += [fault_case(s, f, pk, d) for s, f, pk, d in fault_plan(pid, tier, seed, max(1, n // 80))]
     stats["generated"] += len(cases)
     evaluate(cases, workdir)
@@ -1272,8 +1382,8 @@ def slice_C09(pid, cfg, tier, seed, workdir, rep, stats, findings):
             stats["not_accepted"] += 1
     stats["accepted"] += len(accepted)
     with ProcessPoolExecutor(max_workers=14, initializer=_init_worker, initargs=(workdir,)) as ex:
-        results = list(ex.map(_drive_one, [(c["text"], c["prog"], c["meta"].get("seed", "")) for c in accepted],
-                              chunksize=4))
+        results = list(ex.map(_drive_one, [(c["text"], c["prog"], c["meta"].get("seed", ""), c["meta"].get("values"),
+                                            c["meta"].get("max_calls", 300)) for c in accepted], chunksize=4))
     samples = []
     distinct = set()
     for c, r in zip(accepted, results):
@@ -1283,6 +1393,9 @@ def slice_C09(pid, cfg, tier, seed, workdir, rep, stats, findings):
         if bad:
             why = ("%s at %s" % (r["exc"], r["where"])) if r["exc"] else "order did not complete"
             fid = attribute(known, c["shapes"], RUN_SHAPES)
+            if (r["exc"] == "ZeroDivisionError" and "D18-division-by-zero-escapes" in known
+                    and has_division_in_guard(c["prog"])):
+                fid = "D18-division-by-zero-escapes"
             if fid:
                 stats["known:" + fid] += 1
             else:
@@ -1326,7 +1439,8 @@ def replay(pid, cfg, p, workdir):
     if c["diff"] and c["model"]["status"] not in ("fuel", "unsupported"):
         return {"fails": True, "why": "correspondence: " + c["diff"]}
     if mon == "C09":
-        r = drive_accepted(c["text"], c["prog"], c["meta"].get("seed", ""))
+        r = drive_accepted(c["text"], c["prog"], c["meta"].get("seed", ""), values=c["meta"].get("values"),
+                           max_calls=c["meta"].get("max_calls", 300))
         bad = r["where"] != "invalid" and (r["exc"] is not None or not r["completed"])
         return {"fails": bad, "why": str({k: v for k, v in r.items() if k != "tb"})}
     if mon == "C13-branch":
